@@ -360,6 +360,12 @@ func targets() []*target {
 			params: []string{"(f_replace_all : bytes -> bytes -> bytes -> bytes)", "(g_flags : Z)", "(m_codeHostingProvidersMap : list (bytes * bytes))", "(name : bytes)"},
 			result: "option bytes", final: "None"},
 
+		// ---- the two width setters (C06: tag widths and minimal widths; C02: a stored width of 6 and more makes ShortTag panic) ----
+		{pkg: slogPkg, recv: "", fn: "SetLevelOutputWidth", coq: "set_level_output_width", file: "Layout", strict: true, fallback: "LayoutRef.set_level_output_width_ref",
+			comment: "(returns levelOutputWidth)", params: []string{"(g_levelOutputWidth : Z)", "(width : Z)"}, result: "Z", final: "g_levelOutputWidth"},
+		{pkg: slogPkg, recv: "", fn: "SetMessageMinimalWidth", coq: "set_message_minimal_width", file: "Layout", strict: true, fallback: "LayoutRef.set_message_minimal_width_ref",
+			comment: "(returns minimalMessageWidth)", params: []string{"(g_minimalMessageWidth : Z)", "(w : Z)"}, result: "Z", final: "g_minimalMessageWidth"},
+
 		// ---- the skeleton of printImpl after the blank-line rule (C02, C04-C06, C14): which part printers run,
 		// in what order, under which mode bit / flag; the level colours; ONE printOut of pc.Bytes() after End.
 		// The part printers are parameters over the context pc (LayoutRef.pcs)
